@@ -98,7 +98,11 @@ ReadRes(lst, o) ==
 (*  c  call name; p path of the bucket the call is made on; k key;          *)
 (*  v value id; (lk, lo, hk, hi) range bounds.                               *)
 (***************************************************************************)
-Mutators == {"put", "del", "mkb", "gocb", "delb"}
+Mutators == {"put", "del", "mkb", "gocb", "delb", "stale"}
+\* "stale": the documented misuse.  A handle to bucket p.k is obtained, the bucket is deleted through
+\* its parent, and then call o.v (an index into StaleCalls) is made on the stale handle: the
+\* ONLY place where a panic is the specified result; the deletion itself takes effect.
+StaleCalls == <<"put", "get", "del", "cursor", "nextint", "getb", "mkb", "delb">>
 RootCalls == {"getb", "mkb", "gocb", "delb", "buckets"}   \* what Tx itself offers
 
 Do(tree, w, o) ==
@@ -149,6 +153,11 @@ Do(tree, w, o) ==
          [] o.c = "delb" ->
                 IF IsBucket(tree, q)
                 THEN [res |-> {<<"ok">>}, tree |-> RemoveSubtree(tree, q)]
+                ELSE IF IsKV(tree, q) THEN Same(tree, Err("IncompatibleValue"))
+                ELSE Same(tree, Err("BucketMissing"))
+         [] o.c = "stale" ->
+                IF IsBucket(tree, q)
+                THEN [res |-> {<<"panic">>}, tree |-> RemoveSubtree(tree, q)]
                 ELSE IF IsKV(tree, q) THEN Same(tree, Err("IncompatibleValue"))
                 ELSE Same(tree, Err("BucketMissing"))
          [] o.c = "nextint" -> Same(tree, <<"int", tree[p].x>>)
